@@ -91,6 +91,10 @@ fn check_file(ctx: &Ctx, stream: &str, idx: u64, label: &str, cfg: &WCfg, entrie
         let r = apply(&mut cursor, &op);
         let reads: Vec<(u64, usize, usize)> = std::mem::take(&mut log.lock().unwrap().reads);
         pos = model_step(&m, pos, &op).1;
+        if matches!(op, Op::Reopen) {
+            // a constructor may position itself: its I/O is not an operation of the property
+            continue;
+        }
         if matches!(op, Op::Reset) {
             if !reads.is_empty() {
                 ctx.violation("reset-does-io", stream, idx, detail("reset performed reads", format!("{} reads", reads.len())));
